@@ -127,10 +127,10 @@ func init() {
 		"math.NaN":             func(fr *frame, args []value) value { return math.NaN() },
 		"math.Inf":             func(fr *frame, args []value) value { return math.Inf(int(asInt64(args[0]))) },
 		"math.Abs":             mathUF1("Abs", math.Abs),
-		"math.Floor":           mathUF1("Floor", math.Floor),
-		"math.Ceil":            mathUF1("Ceil", math.Ceil),
-		"math.Trunc":           mathUF1("Trunc", math.Trunc),
-		"math.Round":           mathUF1("Round", math.Round),
+		"math.Floor":           mathRound("RTN", math.Floor),
+		"math.Ceil":            mathRound("RTP", math.Ceil),
+		"math.Trunc":           mathRound("RTZ", math.Trunc),
+		"math.Round":           mathRound("RNA", math.Round),
 		"math.Sqrt":            mathUF1("Sqrt", math.Sqrt),
 		"math.Log":             mathUF1("Log", math.Log),
 		"math.Log2":            mathUF1("Log2", math.Log2),
@@ -451,6 +451,17 @@ func mathUF1(name string, f func(float64) float64) externalFn {
 		}
 		x := fr.i.x
 		return x.lower(x.tt.UF("math_"+name, fpSort(64), x.lift(args[0])), types.Float64)
+	}
+}
+
+// mathRound: rounding to an integral value is exact in SMT-LIB floating point.
+func mathRound(mode string, f func(float64) float64) externalFn {
+	return func(fr *frame, args []value) value {
+		if c, ok := args[0].(float64); ok {
+			return f(c)
+		}
+		x := fr.i.x
+		return x.lower(x.tt.FRound(mode, x.lift(args[0])), types.Float64)
 	}
 }
 
